@@ -37,11 +37,47 @@ func buildCase(id string, rec *R, refs []*R, nodeRefs []int) *Case {
 		refRecs = append(refRecs, r)
 	}
 	c.Cmd = L(Sym("case"), rec.ToSX(), L(refSX...))
-	skipFmt = hasNonStringTags(rec)
 	c.Real = obsCase(e, refErrs)
-	skipFmt = false
 	c.Err, c.Refs, c.RefRecs = e, refErrs, refRecs
 	return c
+}
+
+// engineCases: the stream of the formatting / redaction / report properties.  Every
+// generator family; when taint is set every string input carries a unique token; when
+// hostile is set half of the cases draw their strings from the hostile alphabet.
+func engineCases(g *Gen, n int, taint, hostile bool) []*Case {
+	var recs []*R
+	mk := func(k int) {
+		for i := 0; i < k; i++ {
+			switch i % 4 {
+			case 0, 1:
+				recs = append(recs, g.Tree(1+g.rng.Intn(g.maxDepth)))
+			case 2:
+				recs = append(recs, annotRecipe(g))
+			default:
+				recs = append(recs, multiRecipe(g))
+			}
+		}
+	}
+	if hostile {
+		mk(n / 2)
+		g.hostile = true
+		mk(n - n/2)
+		g.hostile = false
+	} else {
+		mk(n)
+	}
+	var cases []*Case
+	for i, rec := range recs {
+		var toks []Token
+		if taint {
+			toks = g.Taint(rec, nil)
+		}
+		c := buildCase(fmt.Sprintf("e%d", i), rec, nil, nil)
+		c.Toks = toks
+		cases = append(cases, c)
+	}
+	return cases
 }
 
 func hasNonStringTags(r *R) bool {
@@ -88,9 +124,13 @@ func genCases(g *Gen, n int) []*Case {
 
 // multiCases: trees whose root region is multi-cause heavy (nested multi-cause nodes,
 // branches that are wrapped chains, multi-cause nodes under wrappers).
-func multiCases(g *Gen, n int) []*Case {
-	var cases []*Case
-	for i := 0; i < n; i++ {
+func multiRecipe(g *Gen) *R {
+	rec, _ := multiRecipe2(g)
+	return rec
+}
+
+func multiRecipe2(g *Gen) (*R, *R) {
+	{
 		depth := 2 + g.rng.Intn(g.maxDepth-1)
 		nk := 1 + g.rng.Intn(3)
 		kids := make([]*R, nk)
@@ -105,8 +145,16 @@ func multiCases(g *Gen, n int) []*Case {
 		for w := g.rng.Intn(3); w > 0; w-- {
 			rec = g.WrapOp(g.rng.Pick(wrapOps), rec, depth)
 		}
+		return rec, kids[0]
+	}
+}
+
+func multiCases(g *Gen, n int) []*Case {
+	var cases []*Case
+	for i := 0; i < n; i++ {
+		rec, kid0 := multiRecipe2(g)
 		refs := sentinelRefs(g)
-		refs = append(refs, g.Clone(rec), g.Perturb(rec), g.Clone(kids[0]), g.Tree(2))
+		refs = append(refs, g.Clone(rec), g.Perturb(rec), g.Clone(kid0), g.Tree(2))
 		cases = append(cases, buildCase(fmt.Sprintf("u%d", i), rec, refs, []int{0, 1, 2, 3, 4, 6, 9}))
 	}
 	return cases
@@ -115,11 +163,18 @@ func multiCases(g *Gen, n int) []*Case {
 // annotCases: annotation-heavy chains with repeated, empty and interleaved hints,
 // details, links, keys and tags at any depth.
 func annotCases(g *Gen, n int) []*Case {
+	var cases []*Case
+	for i := 0; i < n; i++ {
+		cases = append(cases, buildCase(fmt.Sprintf("a%d", i), annotRecipe(g), nil, nil))
+	}
+	return cases
+}
+
+func annotRecipe(g *Gen) *R {
 	ops := []string{"hint", "hint", "detail", "detail", "issuelink", "telemetry", "tags", "assertion", "wrap", "withstack",
 		"domain", "secondary", "mark", "hop"}
 	hintPool := []string{"h1", "h2", "", "h1", "multi\nline hint", "See: dup"}
-	var cases []*Case
-	for i := 0; i < n; i++ {
+	{
 		var rec *R
 		switch g.rng.Intn(4) {
 		case 0:
@@ -140,9 +195,8 @@ func annotCases(g *Gen, n int) []*Case {
 				rec.In[0] = hintPool[g.rng.Intn(len(hintPool))]
 			}
 		}
-		cases = append(cases, buildCase(fmt.Sprintf("a%d", i), rec, nil, nil))
+		return rec
 	}
-	return cases
 }
 
 // hiddenCases: barrier / secondary / mark nodes at any depth whose hidden sub-trees carry
@@ -268,6 +322,10 @@ func runProperty(res *Result, prop, tier string, seed uint64, driver, replay str
 		cases = append(cases, annotCases(g, n)...)
 	case "RC":
 		cases = append(cases, contractCases(g, n*4)...)
+	case "C03", "C06", "C12", "C15":
+		cases = append(cases, engineCases(g, n/3, true, prop != "C12")...)
+	case "C09":
+		cases = append(cases, engineCases(g, n/3, false, false)...)
 	case "FMT":
 		// formatting-engine tie: every generator family, then the same families over the
 		// hostile alphabet (markers, newlines, NUL, invalid UTF-8, empty strings)
